@@ -313,12 +313,10 @@ theorem C11_in_bounds (buf : Bytes) (hn : NoNul buf) :
 
 /-- On the list model every outcome other than normal termination is an exception of the C++
 code (there is no over-read outcome any more): `parseStr` is total and returns one of
-ok / logic_error / mp::Error / InvalidOptionValue (or the model's own bound on the nesting of
-option files, `tooDeep`, which only an option file can produce) for every byte string. -/
+ok / logic_error / mp::Error / InvalidOptionValue for every byte string. -/
 theorem C11_outcomes (cfg : Cfg) (s : Bytes) (st : St) :
     (parseStr cfg s st).1 = .ok ∨ (parseStr cfg s st).1 = .threwLogic ∨
-    (parseStr cfg s st).1 = .threwError ∨ (parseStr cfg s st).1 = .threwInvalid ∨
-    (parseStr cfg s st).1 = .tooDeep := by
+    (parseStr cfg s st).1 = .threwError ∨ (parseStr cfg s st).1 = .threwInvalid := by
   cases (parseStr cfg s st).1 <;> simp
 
 /-- An unterminated quoted value (the former failing input class) now takes the rest of the
